@@ -396,6 +396,10 @@ func (d *dnsServer) parseQuery(m *dns.Msg, w dns.ResponseWriter) {
 	// exist at all.
 	anyNameExists := false
 	for _, q := range m.Question {
+		// Whatever the query type, a name we hold any record for exists (NODATA, not NXDOMAIN).
+		if _, nameExists := d.Query(q.Qtype, q.Name); nameExists {
+			anyNameExists = true
+		}
 		switch q.Qtype {
 		case dns.TypeA, dns.TypeAAAA:
 			qType := dns.TypeToString[q.Qtype]
